@@ -11,6 +11,15 @@ the token emulator.  For every signature of every response bundle:
 A grid makes sure all of RSA/SHA-256, RSA/SHA-512, P-256, P-384 x hashing on host / on token x token
 profiles (private object with/without public attributes, wrapped/bare EC point) occur in every run.
 
+Sub-second instants and spellings (signer_scenarios.gen_scenario): about six scenarios in ten have bundle inceptions / expirations with
+microsecond components (.000001 / .4 / .499999 / .5 / .500001 / .6 / .999999 on even and odd seconds).  An RRSIG time field is the whole
+second the instant falls in (post-1970: floor = truncation), which is also the second the written SKR states: dnspython is handed
+`microseconds // 10**6` computed in exact integer arithmetic, and the file-level check reads the seconds from the file's own text.  The
+configured KSKs are written in every legal spelling of the same facts: `ds_sha256` upper / lower / mixed case, key tag present / absent,
+`valid_from` / `valid_until` with +00:00 / Z / a non-UTC offset / no designator / a space / fraction digits / as datetime objects, far from
+the bundles or exactly ON the first inception / last expiration (inclusive window), names and labels at the edges of ^[\\w_]+$.  All of
+them are well-formed: signing must complete and every signature must validate.
+
 Environment independence (`tz_scenarios`; harness/envtz.py): further well-formed scenarios are signed with the PROCESS time zone
 switched (lib.ProcessTZ) to each of America/New_York, Australia/Lord_Howe, Asia/Kolkata, Europe/Berlin, the first bundle's inception
 or the last bundle's expiration placed in mid-January, mid-July and on the +-1 h lattice around the zone's DST switches (so that
@@ -62,7 +71,9 @@ def dnspython_validate(bundle: Any, sig: Any) -> str | None:
         sig.algorithm.value,
         sig.labels,
         sig.original_ttl,
-        lib.dt_us(sig.signature_expiration) // 10**6,  # exact integer arithmetic on the aware datetime: no local time involved
+        # exact integer arithmetic on the aware datetime: no local time, no floating point involved.  An instant with a sub-second part
+        # lies IN the second floor(us / 10**6) (all instants here are post-1970), the second the written SKR states as well.
+        lib.dt_us(sig.signature_expiration) // 10**6,
         lib.dt_us(sig.signature_inception) // 10**6,
         sig.key_tag,
         dns.name.from_text(sig.signers_name),
@@ -171,16 +182,36 @@ def tz_scenarios(r: Any, tier: str) -> list[S.Scenario]:
         for p in envtz.sample(zname, year, r, 8 if tier == "quick" else 30):
             alg = algs[i % len(algs)]
             i += 1
-            sc = S.gen_scenario(r, quick=True, n_bundles=r.choice([1, 2, 3]), force_alg=alg)
-            nb = len(sc.layout)
+            nb = r.choice([1, 2, 3])
             if i % 2:
                 start, probed = p["t"], "first-inception"
             else:
                 start, probed = p["t"] - 21 * 86400 - (nb - 1) * 10 * 86400, "last-expiration"
-            sc.start = lib.us_dt(start * 10**6)  # aware UTC, from the integer
+            # the whole-second start is placed here (aware UTC, from the integer); the generator adds sub-second components per bundle and
+            # may write key validity windows exactly onto this timeline
+            sc = S.gen_scenario(r, quick=True, n_bundles=nb, force_alg=alg, start=lib.us_dt(start * 10**6))
             sc.meta.update(tz=zname, probe=p["label"], probed=probed, dst=p["dst"], year=year)
             out.append(sc)
     return out
+
+
+def bump_input_classes(res: Result, sc: S.Scenario, req: Any) -> None:
+    """the input distribution of the sub-second / spelling classes, for the evidence"""
+    fr = [lib.dt_us(t) % 10**6 for b in req.bundles for t in (b.inception, b.expiration)]
+    res.bump("sub-second:scenario-" + ("with" if any(fr) else "without") + "-microsecond-components")
+    for f in fr:
+        res.bump("sub-second:bundle-time-fraction:" + ("0" if f == 0 else "<.5" if f < 500_000 else "=.5" if f == 500_000 else ">.5"))
+    for used in (sc.meta.get("spellings") or {}).values():
+        res.bump("spelling:ds_sha256:" + used.get("ds_sha256", "absent"))
+        for f in ("valid_from", "valid_until"):
+            where, _, style = used.get(f, "default").partition(":")
+            res.bump(f"spelling:{f}:placed:{where}")
+            if style:
+                res.bump(f"spelling:{f}:written:{style}")
+    for k in sc.ksks.values():
+        res.bump("spelling:key_tag:" + ("present" if "key_tag" in k["entry"] else "absent"))
+    res.bump("spelling:key-names:" + sc.meta.get("names", "plain"))
+    res.bump("spelling:token-labels:" + sc.meta.get("labels", "plain"))
 
 
 def run(tier: str, driver_ok: bool) -> Result:
@@ -192,6 +223,11 @@ def run(tier: str, driver_ok: bool) -> Result:
         "with ElementTree and judged by dnspython over the keys in the file; key-tag specials (carry, revoked carry, twin signers, ZSK = KSK tag); "
         "scenarios signed (and written) with the process time zone switched to America/New_York / Australia/Lord_Howe / Asia/Kolkata / "
         "Europe/Berlin, first inception or last expiration in mid-January, mid-July and +-1 h around the zone's DST switches; "
+        "in every stream: bundle inceptions / expirations with microsecond components (.000001/.4/.499999/.5/.500001/.6/.999999) in about six "
+        "scenarios of ten, judged on floor seconds; configured KSKs in every legal spelling (ds_sha256 upper/lower/mixed case, key_tag "
+        "present/absent, valid_from/valid_until with +00:00 / Z / non-UTC offset / no designator / space / 1..6 fraction digits / datetime "
+        "objects, far away or exactly on the first inception / last expiration, valid_until present/absent), key names and token labels at "
+        "the edges of ^[\\w_]+$ (underscore only, digits only, one character, non-ASCII word characters, 40 characters); "
         "non-trivial = distinct scenario"
     )
     r = lib.rng("C01")
@@ -236,6 +272,7 @@ def run(tier: str, driver_ok: bool) -> Result:
         res.count(x["case"])
         alg = sc.meta["alg"]
         res.bump(f"alg:{alg}")
+        bump_input_classes(res, sc, x["req"])
         impl = x["impl"]
         if "ok" not in impl:
             res.violation("well-formed request, schema and healthy keys: signing did not complete", x["case"], key=f"incomplete:alg{alg}", impl=impl, process_time_zone=tz or "(unchanged)")
